@@ -132,6 +132,10 @@ def run_cell(arg):
                 out["viol"].append((f"JacobianIncluded|real-transform|{tag}", f"log_prob(x) != base(T(x)) + log|det dT/dx| with T fitted on the data of the last fit (max diff {np.max(np.abs(ref_lp - lp_before)):.3g}; refit={c.get('refit')})"))
             if c["state"] == "reloaded":
                 path = str(wd / "f.h5")
+                # the flow is written twice (a checkpoint file, then a result file): saving is a query, the
+                # second file holds the same proposal as the first
+                with h5py.File(path + ".first", "w") as f:
+                    fl.save(f, "flow")
                 with h5py.File(path, "w") as f:
                     fl.save(f, "flow")
                 with h5py.File(path, "r") as f:
